@@ -425,6 +425,60 @@ impl Check for C11 {
                 if got.len() < m_all.len() && !got.is_empty() {
                     nontrivial = true;
                 }
+                // the capture stream under the same restriction: document order, and it contains the restricted matches
+                let mut c2 = QueryCursor::new();
+                match (containing, by_point) {
+                    (false, false) => {
+                        c2.set_byte_range(a..b);
+                    }
+                    (false, true) => {
+                        c2.set_point_range(pa..pb);
+                    }
+                    (true, false) => {
+                        c2.set_containing_byte_range(a..b);
+                    }
+                    (true, true) => {
+                        c2.set_containing_point_range(pa..pb);
+                    }
+                }
+                let mut seen: BTreeMap<(usize, u32, usize), u32> = BTreeMap::new();
+                let mut last_start = 0usize;
+                let mut order_ok = true;
+                let mut order_detail = String::new();
+                {
+                    let mut caps = c2.captures(&query, root, bytes);
+                    while let Some((m, ci)) = caps.next() {
+                        let cap = m.captures[*ci];
+                        if let Some(&i) = idx.get(&(cap.node.id(), cap.node.start_byte(), cap.node.end_byte())) {
+                            *seen.entry((m.pattern_index, cap.index, i)).or_insert(0) += 1;
+                        }
+                        if cap.node.start_byte() < last_start && order_ok {
+                            order_ok = false;
+                            order_detail = format!("capture of pattern {} at byte {} delivered after a capture at byte {}", m.pattern_index, cap.node.start_byte(), last_start);
+                        }
+                        last_start = cap.node.start_byte();
+                    }
+                }
+                ctx.out.inner += 1;
+                if !order_ok {
+                    ctx.fail(if wild_root { "C11:captures_order:wildcard_root".to_string() } else { format!("C11:range:{kind}:captures_order") }, format!("{}: capture stream not in document order: {order_detail}\n{hdr}", cfg_desc.join(", ")));
+                    return;
+                }
+                let mut need: BTreeMap<(usize, u32, usize), u32> = BTreeMap::new();
+                for m in &got {
+                    for (ci, ni) in &m.1 {
+                        // the capture stream only delivers captures that themselves intersect the range
+                        let nd = &xt.nodes[*ni];
+                        if nd.end > nd.start && nd.start < b && nd.end > a {
+                            *need.entry((m.0, *ci, *ni)).or_insert(0) += 1;
+                        }
+                    }
+                }
+                if !need.keys().all(|k| seen.contains_key(k)) && !c2.did_exceed_match_limit() && !has_optional && !wild_root {
+                    let lost: Vec<_> = need.keys().filter(|k| !seen.contains_key(*k)).take(3).collect();
+                    ctx.fail(format!("C11:range:{kind}:capture_stream_lacks_match_capture"), format!("{}: captures of restricted matches missing from the restricted capture stream: {:?}\n{hdr}", cfg_desc.join(", "), lost));
+                    return;
+                }
             }
         }
         // (4) match limit
